@@ -65,7 +65,13 @@ BATCHER_BODY = [
     "out = prim.bind(*args, **params)",
     "return (out, (0,) * len(out)) if prim.multiple_results else (out, 0)",
 ]
-HSB_UNCHANGED = [
+# _handle_scalar_broadcasting: the current code (commit c32db30) inserts the new unit axes right AFTER the batch axis
+# (Batch.handle_scalar_broadcasting_fixed); the historical helper appended them at the END (Batch.handle_scalar_broadcasting)
+HSB_AFTER_BATCH = [
+    "if dim is NOT_MAPPED or ndim == np.ndim(x):\n    return x",
+    "return lax.expand_dims(x, tuple(range(1, 1 + ndim - np.ndim(x))))",
+]
+HSB_AT_END = [
     "if dim is NOT_MAPPED or ndim == np.ndim(x):\n    return x",
     "return lax.expand_dims(x, tuple(range(np.ndim(x), ndim)))",
 ]
@@ -116,9 +122,10 @@ def unit_GenAutodiff():
     _, hbody = _func(btree, "_handle_scalar_broadcasting", BU)
     out.append("(* broadcast_batcher_compat has the statement list imaged by Batch.batcher_with (AST checked) *)\n"
                "Definition batcher_shape_checked : bool := true.\n")
-    out.append("(* is _handle_scalar_broadcasting textually the unchanged one (axes appended at the END)?  Otherwise the\n"
-               "   harness decides by behaviour which model (Batch.batcher / Batch.batcher_fixed) it must agree with. *)\n"
-               f"Definition hsb_is_unchanged_source : bool := {'true' if hbody == HSB_UNCHANGED else 'false'}.\n")
+    variant = "after_batch" if hbody == HSB_AFTER_BATCH else ("at_end" if hbody == HSB_AT_END else "unknown")
+    out.append("(* which of the two modelled helpers _handle_scalar_broadcasting textually is (AST): after_batch = the current code\n"
+               "   (Batch.batcher_fixed), at_end = the historical helper (Batch.batcher); the harness ties behaviour to Batch.batcher_fixed *)\n"
+               f"Definition hsb_source_variant : string := {py2coq.coq_string(variant)}.\n")
     users = _batcher_users()
     out.append("(* plugin modules that register the shared broadcasting batch rule (AST scan of jax2onnx/plugins) *)\n"
                "Definition BATCHER_USERS : list string := [" + "; ".join(py2coq.coq_string(u) for u in users) + "].\n")
